@@ -133,6 +133,20 @@ Theorem C07_revert_checkpoint_prefix_refuted : exists st ops,
 Proof. exact C07_revert_checkpoint_prefix_refuted_proof. Qed.
 Print Assumptions C07_revert_checkpoint_prefix_refuted.
 
+(* Savepoint handles (Staging / Release / Cleanup of art.go and rbt.go): Staging returns the new depth, which is the
+   one live handle; Release / Cleanup act iff the handle is the depth (> 0); any other handle leaves the buffer
+   untouched; Release panics for a handle that is neither 0 nor the depth, Cleanup for 0 < h < depth (a handle above
+   the depth is ignored). *)
+Theorem C07_savepoint_handles : forall ip st h,
+  staging_handle st = length (b_stages (step ip st OStaging)) /\
+  handle_live (step ip st OStaging) (staging_handle st) = true /\
+  (handle_live st h = true <-> (h = length (b_stages st) /\ (0 < h)%nat)) /\
+  (handle_live st h = false -> step ip st (ORelease h) = st /\ step ip st (OCleanup h) = st) /\
+  (op_status st (ORelease h) = 2%nat <-> (h <> O /\ h <> length (b_stages st))) /\
+  (op_status st (OCleanup h) = 2%nat <-> ((0 < h)%nat /\ (h < length (b_stages st))%nat)).
+Proof. exact handles_spec. Qed.
+Print Assumptions C07_savepoint_handles.
+
 (* ---------- non-vacuity ---------- *)
 Example iter_example :
   let snap := [([97], [1]); ([97; 0], [2]); ([98], [3]); ([255], [4])] in
